@@ -95,6 +95,8 @@ def checkCoords (utmp northp : Bool) (x y : F64) : Except Err Coords := do
     if northp ∧ iy < mgrs_minutmNrow then
       northp := false
       y := y + F64.ofInt mgrs_utmNshift
+      -- a tiny negative northing rounds up to the equator: keep it on the last southern row (fix d94b3ac)
+      if F64.eq y (F64.ofInt (mgrs_maxutmSrow * tile)) then y := y - eps
     else if !northp ∧ iy ≥ mgrs_maxutmSrow then
       if F64.eq y (F64.ofInt (mgrs_maxutmSrow * tile)) then y := y - eps
       else
@@ -281,21 +283,24 @@ structure Parts where
   northing : List Nat
 deriving DecidableEq, Repr
 
+/-- `MGRS::Decode`.  `d` = the leading digits (`[0, p0)`), `a` = the byte at `p0`, `al` = the further letters (`[p0 + 1, p1)`), `t` = the rest (`[p1, n)`) -/
 def decode (s : List Nat) : Except Err Parts :=
-  let n := s.length
-  if n ≥ 3 && (s.take 3).map upper == [73, 78, 86] then .ok ⟨s.take 3, [], [], []⟩
+  if s.length ≥ 3 && (s.take 3).map upper == [73, 78, 86] then .ok ⟨s.take 3, [], [], []⟩
   else
-    let p0 := (s.takeWhile (inSet digits)).length
-    if p0 = n then .error "ref does not contain alpha chars"
-    else if !(p0 ≤ 2) then .error "ref does not start with 0-2 digits"
-    else if !(inSet alpha (s.getD p0 0)) then .error "ref contains non alphanumeric chars"
-    else
-      let p1 := p0 + ((s.drop p0).takeWhile (inSet alpha)).length
-      if !(p1 = p0 + 1 ∨ p1 = p0 + 3) then .error "ref must contain 1 or 3 alpha chars"
-      else if p1 = p0 + 1 ∧ p1 < n then .error "ref contains junk after 1 alpha char"
-      else if p1 < n ∧ !((s.drop p1).all (inSet digits)) then .error "ref contains junk at end"
-      else if (n - p1) % 2 = 1 then .error "ref must end with even no of digits"
-      else .ok ⟨s.take (p0 + 1), (s.drop (p0 + 1)).take (p1 - (p0 + 1)), (s.drop p1).take ((n - p1) / 2), s.drop (p1 + (n - p1) / 2)⟩
+    let d := s.takeWhile (inSet digits)
+    match s.dropWhile (inSet digits) with
+    | [] => .error "ref does not contain alpha chars"
+    | a :: r =>
+      if !(d.length ≤ 2) then .error "ref does not start with 0-2 digits"
+      else if !(inSet alpha a) then .error "ref contains non alphanumeric chars"
+      else
+        let al := r.takeWhile (inSet alpha)
+        let t := r.dropWhile (inSet alpha)
+        if !(al.length = 0 ∨ al.length = 2) then .error "ref must contain 1 or 3 alpha chars"
+        else if al.length = 0 ∧ t ≠ [] then .error "ref contains junk after 1 alpha char"
+        else if !(t.all (inSet digits)) then .error "ref contains junk at end"
+        else if t.length % 2 = 1 then .error "ref must end with even no of digits"
+        else .ok ⟨d ++ [a], al, t.take (t.length / 2), t.drop (t.length / 2)⟩
 
 /-! ## GeoCoords::MGRSRepresentation / AltMGRSRepresentation -/
 
